@@ -99,6 +99,7 @@ func c09Eval(c c09Case) (ok bool, sig, detail string) {
 	}); p {
 		return false, "panic", "panic: " + msg
 	}
+	engine.Outcome(fmt.Sprint(min, lin, circ))
 	// minimized: forward, strictly increasing, disjoint, non-abutting, union == covered
 	got := make([]int, n)
 	for i, s := range min {
